@@ -13,6 +13,7 @@ ASSUMPTIONS = [
     "frame) and a failure is a known finding only if the implementation's output also equals the "
     "model's (which mirrors both defects)",
 ]
+LEVEL = "translation_validation"    # until the model-level theorem C06_rows is merged
 TRUSTED = ["numpy/scipy floating point for scale, bs, poly (parameters are frozen: checked through "
            "the row identity itself)"]
 
